@@ -159,7 +159,7 @@ Qed.
 
 Lemma pkcs_unpad_pad bs p : 0 < bs -> bs < 256 -> pkcs_unpad bs (pkcs_pad bs p) = Some p.
 Proof.
-  intros Hbs Hlt. unfold pkcs_unpad, pkcs_pad.
+  intros Hbs Hlt. unfold pkcs_unpad, pkcs_pad. rewrite <- ?rev_alt.
   set (n := bs - length p mod bs).
   pose proof (Nat.mod_upper_bound (length p) bs) as Hm.
   assert (Hn : 0 < n /\ n <= bs) by (subst n; lia).
@@ -225,3 +225,133 @@ Proof.
   - exact F.
 Qed.
 End CbcCipher.
+
+(* ------------------------------------------------------------------ *)
+(* injectivity: a plaintext accepted by cbc_decrypt has one ciphertext  *)
+(* ------------------------------------------------------------------ *)
+Lemma app_inj_len {A} (a : list A) : forall a' b b', length a = length a' -> a ++ b = a' ++ b' -> a = a' /\ b = b'.
+Proof.
+  induction a as [|x a IH]; intros a' b b' L H; destruct a' as [|x' a']; cbn [length] in L; try lia.
+  - auto.
+  - cbn [app] in H. injection H as -> H. destruct (IH a' b b') as [-> ->]; [lia|exact H|auto].
+Qed.
+
+Lemma xorb_inj_l a a' b : length a = length b -> length a' = length b -> xorb a b = xorb a' b -> a = a'.
+Proof.
+  intros L1 L2 H. rewrite <- (xorb_cancel a b) by lia. rewrite H. apply xorb_cancel. lia.
+Qed.
+
+Section CbcInj.
+Variable E D : bytes -> bytes.
+Variable bs : nat.
+Hypothesis bs_pos : 0 < bs.
+Hypothesis D_len : forall b, length b = bs -> length (D b) = bs.
+Hypothesis ED : forall b, length b = bs -> E (D b) = b.
+
+Lemma cbc_dec_length bl : forall iv, length iv = bs -> Forall (fun b => length b = bs) bl ->
+  length (cbc_dec_blocks D iv bl) = length bl * bs.
+Proof.
+  induction bl as [|c r IH]; intros iv Hiv F; [reflexivity|].
+  pose proof (Forall_inv F) as Hc. pose proof (Forall_inv_tail F) as Fr. cbv beta in Hc.
+  cbn [cbc_dec_blocks length]. rewrite app_length, xorb_length, (D_len c Hc), (IH c Hc Fr). lia.
+Qed.
+
+Lemma cbc_dec_blocks_inj bl1 : forall bl2 iv, length iv = bs ->
+  Forall (fun b => length b = bs) bl1 -> Forall (fun b => length b = bs) bl2 ->
+  cbc_dec_blocks D iv bl1 = cbc_dec_blocks D iv bl2 -> bl1 = bl2.
+Proof.
+  induction bl1 as [|c1 r1 IH]; intros bl2 iv Hiv F1 F2 H; destruct bl2 as [|c2 r2].
+  - reflexivity.
+  - apply (f_equal (@length byte)) in H. rewrite (cbc_dec_length _ _ Hiv F2) in H. cbn [cbc_dec_blocks length] in H. lia.
+  - apply (f_equal (@length byte)) in H. rewrite (cbc_dec_length _ _ Hiv F1) in H. cbn [cbc_dec_blocks length] in H. lia.
+  - pose proof (Forall_inv F1) as H1. pose proof (Forall_inv_tail F1) as T1.
+    pose proof (Forall_inv F2) as H2. pose proof (Forall_inv_tail F2) as T2. cbv beta in H1, H2.
+    cbn [cbc_dec_blocks] in H.
+    apply app_inj_len in H; [|rewrite !xorb_length, (D_len c1 H1), (D_len c2 H2); reflexivity].
+    destruct H as [Hx Hr].
+    apply xorb_inj_l in Hx; [|rewrite (D_len c1 H1); lia|rewrite (D_len c2 H2); lia].
+    assert (c1 = c2) as <- by (rewrite <- (ED c1 H1), <- (ED c2 H2), Hx; reflexivity).
+    f_equal. exact (IH r2 c1 H1 T1 T2 Hr).
+Qed.
+End CbcInj.
+
+Lemma forallb_eq_repeat l s : forallb (fun y => N.eqb (b2n y) (b2n l)) s = true -> s = repeat l (length s).
+Proof.
+  induction s as [|y s IH]; cbn [forallb length repeat]; intros H; [reflexivity|].
+  apply andb_true_iff in H. destruct H as [H1 H2]. apply N.eqb_eq in H1. apply b2n_inj in H1.
+  subst y. f_equal. exact (IH H2).
+Qed.
+
+(* the model's unpad is strict: it accepts exactly  p ++ n copies of the byte n, 1 <= n <= bs *)
+Lemma pkcs_unpad_inv bs x p : pkcs_unpad bs x = Some p ->
+  exists n, 0 < n /\ n <= bs /\ x = p ++ repeat (n2b (N.of_nat n)) n.
+Proof.
+  unfold pkcs_unpad. rewrite <- ?rev_alt. destruct (rev x) as [|l r]; [discriminate|].
+  set (n := N.to_nat (b2n l)).
+  destruct ((0 <? n) && (n <=? bs) && (n <=? length x) &&
+            forallb (fun y => N.eqb (b2n y) (b2n l)) (skipn (length x - n) x)) eqn:C; [|discriminate].
+  intros H. injection H as <-.
+  rewrite !andb_true_iff in C. destruct C as (((C1 & C2) & C3) & C4).
+  apply Nat.ltb_lt in C1. apply Nat.leb_le in C2, C3.
+  exists n. split; [exact C1|]. split; [exact C2|].
+  apply forallb_eq_repeat in C4. rewrite skipn_length in C4.
+  replace (length x - (length x - n)) with n in C4 by lia.
+  assert (L : n2b (N.of_nat n) = l) by (subst n; rewrite N2Nat.id; apply n2b_b2n).
+  rewrite L. rewrite <- C4. symmetry. apply firstn_skipn.
+Qed.
+
+Lemma pad_len_unique bs lp n1 n2 : 0 < bs -> 0 < n1 <= bs -> 0 < n2 <= bs ->
+  (lp + n1) mod bs = 0 -> (lp + n2) mod bs = 0 -> n1 = n2.
+Proof.
+  intros Hbs H1 H2 M1 M2.
+  apply Nat.mod_divides in M1; [|lia]. apply Nat.mod_divides in M2; [|lia].
+  destruct M1 as [q1 M1]. destruct M2 as [q2 M2].
+  assert (q1 = q2) by nia. subst q2. lia.
+Qed.
+
+Lemma pkcs_unpad_inj bs x1 x2 p : 0 < bs -> length x1 mod bs = 0 -> length x2 mod bs = 0 ->
+  pkcs_unpad bs x1 = Some p -> pkcs_unpad bs x2 = Some p -> x1 = x2.
+Proof.
+  intros Hbs M1 M2 U1 U2.
+  apply pkcs_unpad_inv in U1, U2.
+  destruct U1 as (n1 & A1 & B1 & ->). destruct U2 as (n2 & A2 & B2 & ->).
+  rewrite app_length, repeat_length in M1, M2.
+  assert (n1 = n2) by (apply (pad_len_unique bs (length p)); auto). subst n2. reflexivity.
+Qed.
+
+Section CbcCipherInj.
+Variable blk_enc blk_dec : N -> bytes -> bytes -> bytes.
+Variable c : N.
+Hypothesis blk_dec_len : forall k b, len b = cipher_blk_size c -> len (blk_dec c k b) = cipher_blk_size c.
+Hypothesis blk_enc_dec : forall k b, len b = cipher_blk_size c -> blk_enc c k (blk_dec c k b) = b.
+
+Lemma cbc_decrypt_inj dek iv ct1 ct2 p :
+  (0 < cipher_blk_size c)%N -> len iv = cipher_blk_size c ->
+  cbc_decrypt blk_dec c dek iv ct1 = Some p -> cbc_decrypt blk_dec c dek iv ct2 = Some p -> ct1 = ct2.
+Proof.
+  intros Hpos Hiv. unfold cbc_decrypt.
+  set (bs := N.to_nat (cipher_blk_size c)).
+  set (key := firstn _ dek).
+  assert (Hbs : 0 < bs) by (subst bs; lia).
+  assert (Hivn : length iv = bs) by (unfold len in Hiv; subst bs; lia).
+  destruct ((length ct1 =? 0) || negb (length ct1 mod bs =? 0)) eqn:G1; [discriminate|].
+  destruct ((length ct2 =? 0) || negb (length ct2 mod bs =? 0)) eqn:G2; [discriminate|].
+  apply orb_false_iff in G1, G2. destruct G1 as [_ G1]. destruct G2 as [_ G2].
+  apply negb_false_iff in G1, G2. apply Nat.eqb_eq in G1, G2.
+  intros U1 U2.
+  assert (K1 : length ct1 = (length ct1 / bs) * bs) by (apply Nat.div_exact in G1; lia).
+  assert (K2 : length ct2 = (length ct2 / bs) * bs) by (apply Nat.div_exact in G2; lia).
+  destruct (blocks_spec bs Hbs _ _ K1) as (F1 & C1 & L1).
+  destruct (blocks_spec bs Hbs _ _ K2) as (F2 & C2 & L2).
+  assert (DL : forall b, length b = bs -> length (blk_dec c key b) = bs).
+  { intros b Hb. specialize (blk_dec_len key b). unfold len in blk_dec_len. subst bs. lia. }
+  assert (ED : forall b, length b = bs -> blk_enc c key (blk_dec c key b) = b).
+  { intros b Hb. apply blk_enc_dec. unfold len. subst bs. lia. }
+  assert (X : cbc_dec_blocks (blk_dec c key) iv (blocks bs ct1) = cbc_dec_blocks (blk_dec c key) iv (blocks bs ct2)).
+  { apply (pkcs_unpad_inj bs _ _ p Hbs); try assumption.
+    - rewrite (cbc_dec_length (blk_enc c key) (blk_dec c key) bs Hbs DL ED _ _ Hivn F1). apply Nat.mod_mul. lia.
+    - rewrite (cbc_dec_length (blk_enc c key) (blk_dec c key) bs Hbs DL ED _ _ Hivn F2). apply Nat.mod_mul. lia. }
+  apply (cbc_dec_blocks_inj (blk_enc c key) (blk_dec c key) bs Hbs DL ED _ _ _ Hivn F1 F2) in X.
+  rewrite <- C1, <- C2, X. reflexivity.
+Qed.
+End CbcCipherInj.
